@@ -77,3 +77,14 @@ check("C09", "enum",
       "CompactToBig/BigToCompact/CalcWork/PoW range verdict, calcNextRequiredDifficulty and header-context acceptance through ProcessBlockHeader, median time past, subsidy schedule and 21M cap, strictly increasing cumulative work; refpow bound to Core's arith_uint256/pow test literals and the shipped genesis blocks.",
       "Where Core's 256-bit arithmetic would wrap (powLimit > 2^232) equality is not demanded; negative inexact big.Ints are outside the property's domain.",
       "DESIGN.md §4 C09")
+
+check("C14", "enum",
+      "exhaustive enumeration of all vote patterns over several confirmation windows (complete binary vote trees in one real block index), deployment-definition products, two-arm forks with every query order on a shared cache, against a cache-free BIP9 reference; end-to-end rule gating with real blocks",
+      "Threshold state at every node for 6 deployments per chain, CalcNextBlockVersion, IsDeploymentActive, absorbing Active/Failed, order-independence of queries (all 4!/5! orders from empty caches), and CSV enforcement switching on exactly at the first Active block on both arms of a fork (real ProcessBlock). refbip9 is bound to the repo's thresholdstate and bip0009 integration test rows.",
+      "Window 3 only; BIP9's precondition (start <= timeout, timestamps above MTP) respected; speedy/plain mode as btcd documents it.",
+      "DESIGN.md §4 C14")
+check("C17", "enum+dfs",
+      "exhaustive enumeration of every rooted tree shape (<=8 quick / <=10 thorough nodes) x every tip x all node pairs/heights/locators/stops/maxima against naive parent walks, deep two-branch families for the skip list, and a path-sharing DFS over every interleaving of header and block deliveries on real chains",
+      "Ancestor/FindFork/locators/LocateBlocks/LocateHeaders/HeightRange/IntervalBlockHashes/HeightToHashRange and the chain-view API on index-only chains; on real lab chains BestHeader, IsValidHeader, HeaderHashByHeight, BestChainHeaderForkHeight, refusal of headers below an invalid block, and equality of the final chain with a blocks-only delivery. Reference bound to the doc-comment examples and the TestLocateInventory/TestHeightToHashRange vectors.",
+      "Part (b): trees <=4 (quick) / <=5 (thorough) blocks, one kind of invalid block, parents-first block deliveries.",
+      "DESIGN.md §4 C17")
